@@ -1,5 +1,6 @@
 import AllfedModel.Model.PhysSpec
 import AllfedModel.Model.Report
+import AllfedModel.Model.Rounds
 import Std.Data.HashMap
 import Driver.Wire
 open Wire Allfed.LP Allfed.AllocLP Allfed.PhysSpec
@@ -138,7 +139,24 @@ def splitOp : P String := do
   let l ← go n []
   pure (" ".intercalate l)
 
+/-- rounds.rel T p1 p3 drawn need tolP tolF → 0/1 -/
+def relOp : P String := do
+  let t ← float; let p1 ← float; let p3 ← float; let d ← float; let n ← float; let tp ← float; let tf ← float
+  pure (outB (Allfed.Rounds.relOK t p1 p3 d n tp tf))
+
+/-- rounds.demand monthly duration nmonths → series -/
+def demandOp : P String := do
+  let mo ← float; let d ← nat; let n ← nat
+  pure (outFs (Allfed.Rounds.demandSeries mo d n))
+
+/-- rounds.totals <inp> <assignment> → feedTotal per month, biofuelTotal per month -/
+def totalsOp : P String := do
+  let i ← inpP
+  let x ← assignP
+  let ms := List.range i.nmonths
+  pure (outFs (ms.map (feedTotal i x)) ++ " " ++ outFs (ms.map (biofuelTotal i x)))
+
 def ops : List (String × P String) :=
-  [("lp.rows", rowsOp), ("lp.floor", floorOp), ("lp.check", checkOp), ("report.series", reportOp), ("report.split", splitOp)]
+  [("rounds.rel", relOp), ("rounds.demand", demandOp), ("rounds.totals", totalsOp), ("lp.rows", rowsOp), ("lp.floor", floorOp), ("lp.check", checkOp), ("report.series", reportOp), ("report.split", splitOp)]
 
 end Ops.LP
